@@ -1,6 +1,7 @@
 import Snel.Model.C08Zone
 /-! Helper lemmas for C08 — enum bitmaps, temporal index, calendar, XOR index. -/
 namespace Snel.C08
+open Snel.Gen.C08
 
 /-! ### sorted duplicate-free lists -/
 
@@ -119,7 +120,12 @@ theorem zti_bounds (ts : List Int) (stride t : Int) (ht : t ∈ ts) :
       simp only [Option.getD_some]
       exact ⟨head_le_of_sorted s h hp hh t hs, (last_ge_of_sorted s m hp hl).2 t hs⟩
 
-theorem zti_contains (ts : List Int) (t : Int) (ht : t ∈ ts) :
+/-- The std contract used for `=` probes: the binary search finds every element of the key
+vector (true of a sorted vector). -/
+def BsFindsMembers (keys : List Nat) : Prop := ∀ k ∈ keys, bsearchOk keys k = true
+
+theorem zti_contains (ts : List Int) (t : Int) (ht : t ∈ ts)
+    (hbs : BsFindsMembers (Zti.ofTimestamps ts 1).keys) :
     (Zti.ofTimestamps ts 1).containsTs t = true := by
   obtain ⟨h1, h2⟩ := zti_bounds ts 1 t ht
   have hs : t ∈ sortDedup ts := (mem_sortDedup t ts).2 ht
@@ -131,7 +137,7 @@ theorem zti_contains (ts : List Int) (t : Int) (ht : t ∈ ts) :
   have c2 : (Zti.ofTimestamps ts 1).stride = 1 := rfl
   rw [c2]
   simp only [Int.lt_irrefl, decide_false, Bool.false_and, Bool.false_eq_true, if_false]
-  rw [List.contains_iff_mem]
+  apply hbs
   simp only [Zti.ofTimestamps]
   exact List.mem_map.2 ⟨t, hs, rfl⟩
 
@@ -259,18 +265,19 @@ theorem bucket_mem (step mn t mx : Nat) (hs : 0 < step) (h1 : mn ≤ t) (h2 : t 
   omega
 
 theorem hour_bucket_mem (mn t mx : Nat) (h1 : mn ≤ t) (h2 : t ≤ mx) :
-    bucketId (hourOf t) ∈ bucketsOf 3600 mn mx := bucket_mem 3600 mn t mx (by decide) h1 h2
+    bucketId (hourOf t) ∈ bucketsOf hourSecs mn mx := bucket_mem hourSecs mn t mx (by decide) h1 h2
 
 theorem day_bucket_mem (mn t mx : Nat) (h1 : mn ≤ t) (h2 : t ≤ mx) :
-    bucketId (dayOf t) ∈ bucketsOf 86400 mn mx := bucket_mem 86400 mn t mx (by decide) h1 h2
+    bucketId (dayOf t) ∈ bucketsOf daySecs mn mx := bucket_mem daySecs mn t mx (by decide) h1 h2
 
 theorem bucketId_day_of_lt (t : Nat) (h : t < 2 ^ 32) : bucketId (dayOf t) = dayOf t := by
   unfold bucketId dayOf
   apply Nat.mod_eq_of_lt
+  simp only [daySecs, bucketIdBits]
   omega
 
 theorem mem_dayUnion (regs : List Reg) (p : Nat → Bool) (r : Reg) (hr : r ∈ regs) (b : Nat)
-    (hb : b ∈ bucketsOf 86400 r.mn r.mx) (hp : p b = true) : r.zone ∈ dayUnion regs p := by
+    (hb : b ∈ bucketsOf daySecs r.mn r.mx) (hp : p b = true) : r.zone ∈ dayUnion regs p := by
   unfold dayUnion
   rw [mem_sortDedupN]
   exact List.mem_map.2 ⟨r, List.mem_filter.2 ⟨hr, List.any_eq_true.2 ⟨b, hb, hp⟩⟩, rfl⟩
